@@ -58,3 +58,40 @@ Definition p_running_b (p : problem) (st : @jstate nat) : bool := jrunning_b (p_
 
 Lemma p_accepts_reach p tr st : p_accepts p tr = Some st -> p_reach p st /\ p_running_b p st = false.
 Proof. apply (accepts_reach Nat.eqb nat_eqb_eq). Qed.
+
+(* ---- the beam has no duplicates ---- *)
+From Coq Require Import Permutation.
+Lemma insert_pair_perm a l : Permutation (insert_pair a l) (a :: l).
+Proof.
+  induction l as [|b r IH]; simpl; [reflexivity|]. destruct (pair_ltb b a); [reflexivity|].
+  rewrite IH. apply perm_swap.
+Qed.
+Lemma sort_pairs_perm l : Permutation (sort_pairs l) l.
+Proof. induction l as [|a l IH]; [reflexivity|]. unfold sort_pairs in *. simpl. rewrite insert_pair_perm. now constructor. Qed.
+Lemma NoDup_firstn {A} m (l : list A) : NoDup l -> NoDup (firstn m l).
+Proof.
+  revert l; induction m as [|m IH]; intros [|x l] H; simpl; try constructor.
+  - inversion H; subst. intros Hin. apply firstn_in in Hin. contradiction.
+  - inversion H; subst. now apply IH.
+Qed.
+Lemma map_snd_combine_eq {A B} (l1 : list A) (l2 : list B) : length l1 = length l2 -> map snd (combine l1 l2) = l2.
+Proof. revert l2; induction l1 as [|a l1 IH]; intros [|b l2] H; simpl in *; try discriminate; [reflexivity|]. f_equal. apply IH. lia. Qed.
+Lemma firstn_map {A B} (f : A -> B) m l : firstn m (map f l) = map f (firstn m l).
+Proof. revert l; induction m as [|m IH]; intros [|x l]; simpl; try reflexivity. now rewrite IH. Qed.
+
+Lemma beam_nodup ub th pr row : NoDup (beam ub th pr row).
+Proof.
+  destruct (beam_spec ub th pr row) as (m & _ & -> & _). rewrite <- firstn_map. apply NoDup_firstn.
+  apply (Permutation_NoDup (l := map snd (row_pairs row))).
+  - apply Permutation_map. symmetry. apply sort_pairs_perm.
+  - unfold row_pairs. rewrite map_snd_combine_eq by (now rewrite seq_length). apply seq_NoDup.
+Qed.
+Lemma p_adm_nodup p i : NoDup (p_adm p i).
+Proof. apply beam_nodup. Qed.
+
+Lemma jreach_goal_count {C} ceqb n tag dep adm bt bd bin un isroot pen dd ms nb (st : @jstate C) :
+  jreach ceqb n tag dep adm bt bd bin un isroot pen dd ms nb st -> (length (jgoal st) <= nb)%nat.
+Proof.
+  induction 1 as [|st a Hr IH (H1 & H2 & H3) Hv]; [simpl; lia|].
+  unfold jstep. destruct (jfin a); [simpl; rewrite app_length; simpl; lia|]. destruct (dd && existsb _ _); simpl; lia.
+Qed.
